@@ -6,6 +6,7 @@ import ChemModel.Gen.FnIntegrated
 import ChemModel.Proofs.NumReal
 import Mathlib.Tactic.Linarith
 import Mathlib.Tactic.LinearCombination
+import Mathlib.Analysis.ODE.ExistUnique
 
 set_option linter.unusedSimpArgs false
 set_option linter.unusedTactic false
@@ -377,5 +378,180 @@ theorem cstrWith_init (a b k r p fr fp fv n : ℝ) (hk : k ≠ 0) (ha0 : a ≠ 0
   simp only [zero_mul, zero_sub, mul_zero, neg_zero, Real.exp_zero, mul_one, Real.tanh_neg, Real.tanh_artanh hx]
   subst hxe
   refine Prod.ext ?_ ?_ <;> simp only <;> field_simp <;> ring
+
+/-! ### specification of the closed form ABOVE the steady state (coth branch)
+
+`binary_irrev_cstr` is only defined for `r` below the steady state (known finding).  The solution there is the same expression with
+`coth = 1/tanh` in place of `tanh` and `artanh(1/arg)` in place of `artanh(arg)`; it is what the sympy backend evaluates through complex
+arithmetic.  `cstrAbove` is that specification (hand-written; a target for a repair of the finding, NOT generated from the source). -/
+
+noncomputable def cstrAbove (c a b t k r p fr fp fv n : ℝ) : ℝ × ℝ :=
+  (1 / k * (-fv + a * b * (1 / Real.tanh (t * (a * b / 2) - c))) / 4,
+   1 / k * (fv * n + (8 * k * p + r * (4 * k * n) - fr * (4 * k * n) - fp * (8 * k)) * Real.exp (-(fv * t))
+        - a * n * b * (1 / Real.tanh (t * (a * b / 2) - c))
+        + fr * (4 * k * n) + fp * (8 * k)) / 8)
+
+theorem tanh_pos_of_pos {x : ℝ} (hx : 0 < x) : 0 < Real.tanh x := by
+  rw [Real.tanh_eq_sinh_div_cosh]
+  exact div_pos (Real.sinh_pos_iff.mpr hx) (Real.cosh_pos x)
+
+/-- `d/ds coth(s·m − c) = (1 − coth²)·m` wherever `tanh ≠ 0` -/
+theorem hasDerivAt_coth_lin (m c t : ℝ) (h0 : Real.tanh (t * m - c) ≠ 0) :
+    HasDerivAt (fun s => 1 / Real.tanh (s * m - c)) ((1 - (1 / Real.tanh (t * m - c)) ^ 2) * m) t := by
+  have hlin : HasDerivAt (fun s : ℝ => s * m - c) m t := by
+    simpa using ((hasDerivAt_id t).mul_const m).sub_const c
+  have h := (hasDerivAt_const t (1 : ℝ)).div hlin.tanh h0
+  refine h.congr_deriv ?_
+  field_simp
+  ring
+
+theorem cstrAbove_fst_hasDerivAt (c a b t k r p fr fp fv n : ℝ) (hk : k ≠ 0) (ha : a ^ 2 = fv) (hb : b ^ 2 = fv + fr * (8 * k))
+    (h0 : Real.tanh (t * (a * b / 2) - c) ≠ 0) :
+    HasDerivAt (fun s => (cstrAbove c a b s k r p fr fp fv n).1)
+      (fv * fr - fv * (cstrAbove c a b t k r p fr fp fv n).1 - 2 * k * (cstrAbove c a b t k r p fr fp fv n).1 ^ 2) t := by
+  simp only [cstrAbove]
+  have hC := hasDerivAt_coth_lin (a * b / 2) c t h0
+  have h := ((((hC.const_mul (a * b)).const_add (-fv)).const_mul (1 / k))).div_const 4
+  refine h.congr_deriv ?_
+  generalize 1 / Real.tanh (t * (a * b / 2) - c) = T
+  subst ha
+  obtain rfl : fr = (b ^ 2 - a ^ 2) / (8 * k) := by field_simp; linarith
+  field_simp
+  ring
+
+theorem cstrAbove_snd_hasDerivAt (c a b t k r p fr fp fv n : ℝ) (hk : k ≠ 0) (ha : a ^ 2 = fv) (hb : b ^ 2 = fv + fr * (8 * k))
+    (h0 : Real.tanh (t * (a * b / 2) - c) ≠ 0) :
+    HasDerivAt (fun s => (cstrAbove c a b s k r p fr fp fv n).2)
+      (fv * fp + n * k * (cstrAbove c a b t k r p fr fp fv n).1 ^ 2 - fv * (cstrAbove c a b t k r p fr fp fv n).2) t := by
+  simp only [cstrAbove]
+  have hEn := hasDerivAt_exp_lin (g := fun s => -(fv * s)) (-fv) t (fun s => by ring)
+  have hC := hasDerivAt_coth_lin (a * b / 2) c t h0
+  have hG := ((((hEn.const_mul (8 * k * p + r * (4 * k * n) - fr * (4 * k * n) - fp * (8 * k))).const_add (fv * n)).sub
+    (hC.const_mul (a * n * b))).add_const (fr * (4 * k * n))).add_const (fp * (8 * k))
+  have h := (hG.const_mul (1 / k)).div_const 8
+  refine h.congr_deriv ?_
+  try simp only [Pi.add_apply, Pi.sub_apply, Pi.mul_apply]
+  generalize Real.exp (-(fv * t)) = E
+  generalize 1 / Real.tanh (t * (a * b / 2) - c) = T
+  subst ha
+  obtain rfl : fr = (b ^ 2 - a ^ 2) / (8 * k) := by field_simp; linarith
+  field_simp
+  ring
+
+theorem cstrAbove_init (a b k r p fr fp fv n : ℝ) (hk : k ≠ 0) (ha0 : a ≠ 0) (hb0 : b ≠ 0) (hq : fv + 4 * k * r ≠ 0)
+    (x : ℝ) (hx : x ∈ Set.Ioo (-1 : ℝ) 1) (hxe : x = -(a * b) / (fv + 4 * k * r)) :
+    cstrAbove (Real.artanh x) a b 0 k r p fr fp fv n = (r, p) := by
+  simp only [cstrAbove, zero_mul, zero_sub, mul_zero, neg_zero, Real.exp_zero, mul_one, Real.tanh_neg, Real.tanh_artanh hx]
+  subst hxe
+  refine Prod.ext ?_ ?_ <;> simp only <;> field_simp <;> ring
+
+/-- above the steady state `x = −√fv·√(fv+8k·fr)/(fv+4kr)` lies in (−1, 0) -/
+theorem cstrAbove_arg_mem (k r fr fv : ℝ) (hk : 0 < k) (hr : 0 ≤ r) (hfv : 0 < fv) (hfr : 0 ≤ fr)
+    (habove : fv * fr < 2 * k * r ^ 2 + fv * r) :
+    -(√fv * √(fv + fr * (8 * k))) / (fv + 4 * k * r) ∈ Set.Ioo (-1 : ℝ) 0 := by
+  have hrad : 0 < fv + fr * (8 * k) := by positivity
+  have ha2 : √fv ^ 2 = fv := Real.sq_sqrt hfv.le
+  have hb2 : √(fv + fr * (8 * k)) ^ 2 = fv + fr * (8 * k) := Real.sq_sqrt hrad.le
+  have ha0 : 0 < √fv := Real.sqrt_pos.mpr hfv
+  have hb0 : 0 < √(fv + fr * (8 * k)) := Real.sqrt_pos.mpr hrad
+  generalize √fv = a at *
+  generalize √(fv + fr * (8 * k)) = b at *
+  have hab : 0 < a * b := mul_pos ha0 hb0
+  have hq : 0 < fv + 4 * k * r := by positivity
+  have hsq : (a * b) ^ 2 = fv * (fv + fr * (8 * k)) := by rw [mul_pow, ha2, hb2]
+  have hlt : a * b < fv + 4 * k * r := by
+    by_contra hcon
+    have hcon := not_lt.mp hcon
+    have : (fv + 4 * k * r) ^ 2 ≤ (a * b) ^ 2 := pow_le_pow_left₀ hq.le hcon 2
+    rw [hsq] at this
+    nlinarith
+  constructor
+  · rw [neg_div, neg_lt_neg_iff, div_lt_one hq]; exact hlt
+  · rw [neg_div, neg_lt_zero]; exact div_pos hab hq
+
+/-- the specification above the steady state with its integration constant `artanh(1/arg)`, `1/arg = −√fv·√(fv+8k·fr)/(fv+4kr)` -/
+noncomputable def binaryIrrevCstrAbove (t k r p fr fp fv n : ℝ) : ℝ × ℝ :=
+  cstrAbove (Real.artanh (-(√fv * √(fv + fr * (8 * k))) / (fv + 4 * k * r))) (√fv) (√(fv + fr * (8 * k))) t k r p fr fp fv n
+
+/-- for `t ≥ 0` the `tanh` in the denominator of the coth branch is positive -/
+theorem cstrAbove_tanh_ne (t k r fr fv : ℝ) (hk : 0 < k) (hr : 0 ≤ r) (hfv : 0 < fv) (hfr : 0 ≤ fr)
+    (habove : fv * fr < 2 * k * r ^ 2 + fv * r) (ht : 0 ≤ t) :
+    Real.tanh (t * (√fv * √(fv + fr * (8 * k)) / 2)
+      - Real.artanh (-(√fv * √(fv + fr * (8 * k))) / (fv + 4 * k * r))) ≠ 0 := by
+  have hc := Real.artanh_neg (cstrAbove_arg_mem k r fr fv hk hr hfv hfr habove)
+  have hab : 0 ≤ √fv * √(fv + fr * (8 * k)) / 2 := by positivity
+  have := mul_nonneg ht hab
+  exact (tanh_pos_of_pos (by linarith)).ne'
+
+/-! ### uniqueness for the linear rate equations -/
+
+/-- an affine right-hand side `y ↦ c·y + e` is Lipschitz -/
+theorem lipschitz_affine (c e : ℝ) : LipschitzWith (Real.nnabs c) (fun y : ℝ => c * y + e) := by
+  refine LipschitzWith.of_dist_le_mul fun x y => ?_
+  rw [Real.dist_eq, Real.dist_eq, show c * x + e - (c * y + e) = c * (x - y) by ring, abs_mul]
+  simp
+
+/-- two global solutions of `y' = c·y + e` with the same value at 0 coincide -/
+theorem affine_ode_unique (c e : ℝ) (f g : ℝ → ℝ) (hf : ∀ t, HasDerivAt f (c * f t + e) t) (hg : ∀ t, HasDerivAt g (c * g t + e) t)
+    (h0 : f 0 = g 0) : f = g :=
+  ODE_solution_unique_univ (v := fun _ z => c * z + e) (s := fun _ => Set.univ) (K := Real.nnabs c) (t₀ := 0)
+    (fun _ => (lipschitz_affine c e).lipschitzOnWith) (fun t => ⟨hf t, trivial⟩) (fun t => ⟨hg t, trivial⟩) h0
+
+section Uniqueness
+open Set
+/-- two global solutions of `y' = c·y + e t` (time-dependent inhomogeneity) with the same value at 0 coincide -/
+theorem affine_ode_unique' (c : ℝ) (e : ℝ → ℝ) (f g : ℝ → ℝ) (hf : ∀ t, HasDerivAt f (c * f t + e t) t)
+    (hg : ∀ t, HasDerivAt g (c * g t + e t) t) (h0 : f 0 = g 0) : f = g :=
+  ODE_solution_unique_univ (v := fun t z => c * z + e t) (s := fun _ => Set.univ) (K := Real.nnabs c) (t₀ := 0)
+    (fun t => (lipschitz_affine c (e t)).lipschitzOnWith) (fun t => ⟨hf t, trivial⟩) (fun t => ⟨hg t, trivial⟩) h0
+
+/-- the quadratic right-hand side `z ↦ α z² + β z + γ` is Lipschitz on `[-M, M]` -/
+theorem lipschitzOn_quadratic (α β γ M : ℝ) (hM : 0 ≤ M) :
+    LipschitzOnWith (Real.nnabs (|α| * (2 * M) + |β|)) (fun z : ℝ => α * z ^ 2 + β * z + γ) (Icc (-M) M) := by
+  refine LipschitzOnWith.of_dist_le_mul fun x hx y hy => ?_
+  have hK : 0 ≤ |α| * (2 * M) + |β| := add_nonneg (mul_nonneg (abs_nonneg α) (by linarith)) (abs_nonneg β)
+  rw [Real.dist_eq, Real.dist_eq, Real.coe_nnabs, abs_of_nonneg hK]
+  have h1 : α * x ^ 2 + β * x + γ - (α * y ^ 2 + β * y + γ) = (α * (x + y) + β) * (x - y) := by ring
+  rw [h1, abs_mul]
+  refine mul_le_mul_of_nonneg_right ?_ (abs_nonneg _)
+  have hxy : |x + y| ≤ 2 * M := by
+    rw [abs_le]; constructor <;> linarith [hx.1, hx.2, hy.1, hy.2]
+  calc |α * (x + y) + β| ≤ |α * (x + y)| + |β| := abs_add_le _ _
+    _ = |α| * |x + y| + |β| := by rw [abs_mul]
+    _ ≤ |α| * (2 * M) + |β| := by gcongr
+
+/-- two solutions of `y' = α y² + β y + γ` on `[a, b]` with the same value at `a` coincide on `[a, b]` -/
+theorem quadratic_ode_unique (α β γ a b : ℝ) (f g : ℝ → ℝ)
+    (hf : ∀ t ∈ Icc a b, HasDerivAt f (α * f t ^ 2 + β * f t + γ) t)
+    (hg : ∀ t ∈ Icc a b, HasDerivAt g (α * g t ^ 2 + β * g t + γ) t) (h0 : f a = g a) :
+    EqOn f g (Icc a b) := by
+  have hfc : ContinuousOn f (Icc a b) := fun t ht => (hf t ht).continuousAt.continuousWithinAt
+  have hgc : ContinuousOn g (Icc a b) := fun t ht => (hg t ht).continuousAt.continuousWithinAt
+  obtain ⟨Mf, hMf⟩ := isCompact_Icc.exists_bound_of_continuousOn hfc
+  obtain ⟨Mg, hMg⟩ := isCompact_Icc.exists_bound_of_continuousOn hgc
+  set M := max (max Mf Mg) 0 with hM
+  have hM0 : 0 ≤ M := le_max_right _ _
+  have hfs : ∀ t ∈ Ico a b, f t ∈ Icc (-M) M := fun t ht => by
+    have := hMf t (Ico_subset_Icc_self ht)
+    rw [Real.norm_eq_abs, abs_le] at this
+    have h2 : Mf ≤ M := le_trans (le_max_left _ _) (le_max_left _ _)
+    exact ⟨by linarith [this.1], by linarith [this.2]⟩
+  have hgs : ∀ t ∈ Ico a b, g t ∈ Icc (-M) M := fun t ht => by
+    have := hMg t (Ico_subset_Icc_self ht)
+    rw [Real.norm_eq_abs, abs_le] at this
+    have h2 : Mg ≤ M := le_trans (le_max_right _ _) (le_max_left _ _)
+    exact ⟨by linarith [this.1], by linarith [this.2]⟩
+  exact ODE_solution_unique_of_mem_Icc_right (v := fun _ z => α * z ^ 2 + β * z + γ) (s := fun _ => Icc (-M) M)
+    (fun _ _ => lipschitzOn_quadratic α β γ M hM0) hfc
+    (fun t ht => (hf t (Ico_subset_Icc_self ht)).hasDerivWithinAt) hfs hgc
+    (fun t ht => (hg t (Ico_subset_Icc_self ht)).hasDerivWithinAt) hgs h0
+/-- interval version: two solutions of `y' = c·y + e t` on `[a, b]` with the same value at `a` coincide on `[a, b]` -/
+theorem affine_ode_unique_on (c : ℝ) (e : ℝ → ℝ) (a b : ℝ) (f g : ℝ → ℝ)
+    (hf : ∀ t ∈ Icc a b, HasDerivAt f (c * f t + e t) t) (hg : ∀ t ∈ Icc a b, HasDerivAt g (c * g t + e t) t) (h0 : f a = g a) :
+    EqOn f g (Icc a b) :=
+  ODE_solution_unique (v := fun t z => c * z + e t) (K := Real.nnabs c) (fun t => lipschitz_affine c (e t))
+    (fun t ht => (hf t ht).continuousAt.continuousWithinAt) (fun t ht => (hf t (Ico_subset_Icc_self ht)).hasDerivWithinAt)
+    (fun t ht => (hg t ht).continuousAt.continuousWithinAt) (fun t ht => (hg t (Ico_subset_Icc_self ht)).hasDerivWithinAt) h0
+end Uniqueness
 
 end ChemModel.Integrated
